@@ -240,6 +240,16 @@ func confirmPool(r *run.Rng, V *fx.Node, w *fx.World, b *types.Block, sibling *t
 			add(fx.SignBlock(sibling.Hash(), k), "sig-for-sibling")
 		}
 	}
+	// nodes the term record lists behind the deputy cut sign too
+	isDep := map[common.Address]bool{}
+	for _, dn := range V.DM.GetDeputiesByHeight(b.Height(), true) {
+		isDep[dn.MinerAddress] = true
+	}
+	for _, k := range w.Deputies {
+		if !isDep[k.Addr] {
+			add(fx.SignBlock(b.Hash(), k), "listed-candidate-not-deputy")
+		}
+	}
 	if hostile {
 		add(fx.SignBlock(b.Hash(), w.Outsider), "outsider")
 		add(types.BytesToSignData(r.Bytes(65)), "random-bytes")
@@ -259,6 +269,13 @@ func scenario(c *run.Ctx, idx int, fixed bool) {
 	wcfg := fx.WorldCfg{Deputies: nDep, Users: 4, SlotMs: uint64(1000 * r.Range(2, 5))}
 	if idx%4 == 3 && !fixed {
 		wcfg.DeputyCap = nDep + 3
+	}
+	// surplus: the genesis term record lists more nodes than the nodes' configured deputy count; the nodes behind the
+	// cut are candidates, not deputies of the term, and their (valid) signatures must not count
+	surplus := 0
+	if idx%8 == 6 && !fixed {
+		surplus = r.Range(1, 2)
+		wcfg.Deputies, wcfg.DeputyCap = nDep+surplus, nDep
 	}
 	w := fx.NewWorld(wcfg)
 	wcfg.GenesisTime, wcfg.SlotMs = w.GenesisTime, w.SlotMs
@@ -452,6 +469,9 @@ func scenario(c *run.Ctx, idx int, fixed bool) {
 			}
 		}
 		queue = again
+	}
+	if surplus > 0 {
+		c.Stat("scenarios_with_listed_nodes_behind_the_deputy_cut", 1)
 	}
 	shape := fmt.Sprintf("n%d+%d self=%s prefix%d tree%d hostile=%v", nDep, growth, selfKind, prefixLen, len(built), hostile)
 	siblings := false
